@@ -356,7 +356,7 @@ impl Check for C05 {
                 let k = rng.range(1, 5);
                 // alternate long / short records so that a shorter catalogue follows a longer one in place
                 long_addr = !long_addr;
-                LStep::Member { members: (1..=k).collect(), after: if rng.chance(0.3) { (1..=k + 1).collect() } else { vec![] }, addr_len: if long_addr { rng.range(30, 120) as usize } else { 1 } }
+                LStep::Member { members: (1..=k).collect(), after: if rng.chance(0.3) { (1..=k + 1).collect() } else { vec![] }, addr_len: if rng.chance(0.4) { 0 } else if long_addr { rng.range(30, 120) as usize } else { 1 } }
             } else if r < 52 {
                 long_addr = !long_addr;
                 LStep::NodeAddr { id: rng.range(1, 5), addr_len: if long_addr { rng.range(30, 120) as usize } else { 1 } }
